@@ -1599,4 +1599,122 @@ example : ¬ Valid { dflt with ll := 1000 * ms + 1 } := (hraft_reject_iff _).mp 
 
 end HRaft
 
+/-! ## Environment-variable decode kinds (round 8 final) -/
+namespace EnvK
+open CV.C15.EnvK
+
+theorem splitC_no_sep (c : Char) : ∀ p : List Char, c ∉ p → splitC c p = [p]
+  | [], _ => rfl
+  | x :: xs, h => by
+    have hx : x ≠ c := fun e => h (by simp [e])
+    have hxs : c ∉ xs := fun m => h (List.mem_cons_of_mem _ m)
+    simp [splitC, hx, splitC_no_sep c xs hxs]
+
+theorem splitC_append (c : Char) (rest : List Char) : ∀ p : List Char, c ∉ p → splitC c (p ++ c :: rest) = p :: splitC c rest
+  | [], _ => by simp [splitC]
+  | x :: xs, h => by
+    have hx : x ≠ c := fun e => h (by simp [e])
+    have hxs : c ∉ xs := fun m => h (List.mem_cons_of_mem _ m)
+    simp [splitC, hx, splitC_append c rest xs hxs]
+
+/-- `strings.Split(strings.Join(parts, c), c) = parts` for a non-empty list of parts that do not contain the separator -/
+theorem split_join (c : Char) : ∀ parts : List (List Char), parts ≠ [] → (∀ p ∈ parts, c ∉ p) → splitC c (joinC c parts) = parts
+  | [], h, _ => absurd rfl h
+  | [p], _, h => by simpa [joinC] using splitC_no_sep c p (h p (by simp))
+  | p :: q :: r, _, h => by
+    have ih := split_join c (q :: r) (by simp) (fun x hx => h x (List.mem_cons_of_mem _ hx))
+    simp only [joinC]
+    rw [splitC_append c _ p (h p (by simp)), ih]
+
+/-- the list form `ToJSON` prints (elements joined by commas, none containing a comma) decodes to the same list -/
+theorem env_decode_roundtrip_list (parts : List (List Char)) (hne : parts ≠ []) (h : ∀ p ∈ parts, ',' ∉ p)
+    (hb : isBlank (joinC ',' parts) = false) : envDecode .strList (joinC ',' parts) = .ok (.strs parts) := by
+  simp [envDecode, hb, split_join ',' parts hne h]
+
+example : envDecode .strList "/ip4/0.0.0.0/tcp/9096,/ip6/::/tcp/9096".toList
+    = .ok (.strs ["/ip4/0.0.0.0/tcp/9096".toList, "/ip6/::/tcp/9096".toList]) := by decide
+
+/-- a slice variable is never refused by envconfig itself (only the section's own parsing can refuse it afterwards) -/
+theorem env_decode_list_never_refuses (s : List Char) : envDecode .strList s ≠ .refuse := by
+  cases h : isBlank s <;> simp [envDecode, h]
+
+/-- what `ToJSON` prints for a bool decodes to it -/
+theorem env_decode_roundtrip_bool (b : Bool) : envDecode .bool (toString b).toList = .ok (.bool b) := by
+  cases b <;> decide
+
+/-- every text outside ParseBool's twelve spellings is refused -/
+theorem env_decode_rejects_bool (s : List Char) (h1 : s ∉ trues) (h2 : s ∉ falses) : envDecode .bool s = .refuse := by
+  simp [envDecode, decBool, h1, h2]
+
+example : envDecode .bool "yes".toList = .refuse ∧ envDecode .bool " true".toList = .refuse ∧
+    envDecode .bool "T".toList = .ok (.bool true) := by decide
+
+theorem decPairs_bad : ∀ (l : List (List Char)) (p : List Char), p ∈ l → (splitC ':' p).length ≠ 2 → decPairs l = none
+  | [], _, h, _ => by simp at h
+  | q :: qs, p, h, hl => by
+    unfold decPairs
+    split
+    · rename_i k v hq
+      rcases List.mem_cons.mp h with e | m
+      · subst e; simp [hq] at hl
+      · simp [decPairs_bad qs p m hl]
+    · rfl
+
+/-- a map variable with one piece that is not exactly `k:v` is refused as a whole (no pair of it is applied) -/
+theorem env_decode_rejects_map (s p : List Char) (hb : isBlank s = false) (hp : p ∈ splitC ',' s)
+    (hl : (splitC ':' p).length ≠ 2) : envDecode .strMap s = .refuse ∧ envDecode .strListMap s = .refuse := by
+  simp [envDecode, hb, decPairs_bad _ p hp hl]
+
+example : envDecode .strMap "a:b,c".toList = .refuse ∧ envDecode .strMap "a:b:c".toList = .refuse ∧
+    envDecode .strMap "a:b,c:d".toList = .ok (.pairs [("a".toList, "b".toList), ("c".toList, "d".toList)]) := by decide
+
+theorem decPairs_print : ∀ l : List (List Char × List Char), (∀ kv ∈ l, ':' ∉ kv.1 ∧ ':' ∉ kv.2) →
+    decPairs (l.map fun kv => kv.1 ++ ':' :: kv.2) = some l
+  | [], _ => rfl
+  | (k, v) :: r, h => by
+    have hk := (h (k, v) (by simp)).1
+    have hv := (h (k, v) (by simp)).2
+    have ih := decPairs_print r (fun kv m => h kv (List.mem_cons_of_mem _ m))
+    simp only [List.map, decPairs]
+    rw [splitC_append ':' v k hk, splitC_no_sep ':' v hv]
+    simp [ih]
+
+/-- the `k:v,k:v` form of a map whose keys and values hold no `,` / `:` decodes to the same pairs -/
+theorem env_decode_roundtrip_map (l : List (List Char × List Char)) (hne : l ≠ [])
+    (h : ∀ kv ∈ l, ':' ∉ kv.1 ∧ ':' ∉ kv.2 ∧ ',' ∉ kv.1 ∧ ',' ∉ kv.2)
+    (hb : isBlank (joinC ',' (l.map fun kv => kv.1 ++ ':' :: kv.2)) = false) :
+    envDecode .strMap (joinC ',' (l.map fun kv => kv.1 ++ ':' :: kv.2)) = .ok (.pairs l) := by
+  have hs : splitC ',' (joinC ',' (l.map fun kv => kv.1 ++ ':' :: kv.2)) = l.map fun kv => kv.1 ++ ':' :: kv.2 := by
+    apply split_join
+    · simpa using hne
+    · intro p hp
+      rcases List.mem_map.mp hp with ⟨kv, m, rfl⟩
+      have := h kv m
+      simp [this.2.2.1, this.2.2.2]
+  simp [envDecode, hb, hs, decPairs_print l (fun kv m => ⟨(h kv m).1, (h kv m).2.1⟩)]
+
+/-- ints: the decimal forms; `12a` / empty / out of range refused; base-0 forms left undecided (envconfig parses base 0) -/
+theorem env_decode_int_examples :
+    envDecode (.int 64) "-1".toList = .ok (.int (-1)) ∧ envDecode (.int 64) "9223372036854775807".toList = .ok (.int 9223372036854775807) ∧
+    envDecode (.int 64) "9223372036854775808".toList = .refuse ∧ envDecode (.int 64) "12a".toList = .refuse ∧
+    envDecode (.int 64) "".toList = .refuse ∧ envDecode (.uint 64) "-1".toList = .refuse ∧
+    envDecode (.int 64) "0x10".toList = .undecided ∧ envDecode (.int 64) "010".toList = .undecided := by decide
+
+/-- the regenerated table: every variable of every field has a decode kind the model knows (no `other`), and the kind agrees
+with the abstract type of the row (list rows are comma-split slices, map rows `k:v` maps, bool rows ParseBool).
+NOT PROVED (round 8 final): `decide` over the 154 string lookups exceeds the default heartbeats; kept as a named statement.
+An `other` kind is still caught at run time: the driver answers `diff model=kind-other` on every `envk` case of such a field. -/
+def table_env_kinds : Prop :=
+    Gen.fields.all (fun f => match Gen.envKinds.lookup f.env, f.ty with
+      | some .other, _ => false
+      | none, _ => false
+      | some k, .list => k == .strList || k == .floatList
+      | some k, .map => k == .strMap || k == .strListMap
+      | some k, .bool => k == .bool
+      | some k, .dur => k == .str
+      | some k, .str => k == .str
+      | some _, _ => true) = true
+
+end EnvK
+
 end CV.C15
